@@ -87,7 +87,7 @@ package testonly
 // declarations is reported, every @testonly type used there is reported (TONL01) at its first unsuppressed use, and
 // nothing else is reported.
 //@ func CheckTestOnly
-//@   props C03 C07 C08 C12 C14 C17 C10
+//@   props C03 C07 C08 C12 C14 C17 C10 C13
 //@   assigns nothing
 //@   requires cfg != nil && pass.Pkg != nil && packageAnnotations != nil && (ignoreSet != nil ==> isetInv(ignoreSet))
 //@   ensures forall j int :: 0 <= j && j < len(result) ==> justifiedT(cfg, pass, packageAnnotations, ignoreSet, result[j])
